@@ -26,6 +26,10 @@ Lemma m_pos_spec' max w v r ln : max <= INT64_MAX -> ws_ok w = true -> 0 <= v ->
   spec2 (v <=? max) (m_pos max (amk (w ++ print_nat v ++ r) ln)) v r.
 Proof. intros. rewrite app_assoc. apply (m_pos_spec max (w, v)); assumption. Qed.
 
+Lemma m_atom_spec' w v r ln : ws_ok w = true -> 0 <= v -> delim r ->
+  spec2 (atom_in (w, v)) (m_atom (amk (w ++ print_nat v ++ r) ln)) v r.
+Proof. intros. rewrite app_assoc. apply (m_atom_spec (w, v)); assumption. Qed.
+
 Lemma umax_le : sm_umax <= INT64_MAX. Proof. unfold sm_umax, INT64_MAX. lia. Qed.
 
 (* ---- counted loops ---- *)
@@ -140,8 +144,8 @@ Qed.
 (* ---- sums ---- *)
 Ltac bt_term t :=
   match t with
-  | true => fail
-  | false => fail
+  | true => fail 1
+  | false => fail 1
   | andb ?a ?b => first [bt_term a | bt_term b]
   | orb ?a ?b => first [bt_term a | bt_term b]
   | negb ?a => bt_term a
@@ -245,8 +249,7 @@ Proof.
     rewrite E. clear E. unfold r_cnt. rewrite <- !app_assoc.
     eapply spec2_eq; cycle 1.
     + eapply spec2_bind.
-      { change (nw ++ print_nat (Z.of_nat (length hs)) ++ ?x) with (r_num (nw, Z.of_nat (length hs)) ++ x).
-        apply (m_atom_spec (nw, Z.of_nat (length hs))); [now apply sep_ok_ws | cbn; lia |].
+      { apply (m_atom_spec' nw (Z.of_nat (length hs))); [now apply sep_ok_ws | lia |].
         apply delim_nums; [assumption|]. unfold r_counts, r_cnt. rewrite <- !app_assoc. now apply delim_sep. }
       intros _ ln1. cbv beta iota. cbn [snd].
       eapply spec2_bind. { apply atoms_spec; [apply fuel_nums; assumption | assumption |]. unfold r_counts, r_cnt. rewrite <- !app_assoc. now apply delim_sep. }
@@ -287,7 +290,7 @@ Proof.
     + unfold count_in. change sm_umax with UINT_MAX. btaut.
   - (* 91 *)
     bsplit. destruct (num_ok_inv a ltac:(assumption)) as (_ & Hw & Hv). destruct (num_ok_inv v ltac:(assumption)) as (_ & Hw2 & Hv2).
-    unfold read_rule. rt_reduce. destruct (claspExt o); cbn [andb]; [|eexists; reflexivity].
+    unfold read_rule. rt_reduce. rewrite <- !app_assoc. destruct (claspExt o); cbn [andb]; [|eexists; reflexivity].
     eapply spec2_bind. { apply m_atom_spec; [assumption | assumption | now apply delim_num]. }
     intros _ ln1. cbv beta iota.
     rewrite <- (andb_true_r (snd v <=? 2)).
@@ -320,7 +323,11 @@ Lemma print_nat_len v : 0 <= v -> (1 <= length (print_nat v))%nat.
 Proof. intros H. pose proof (print_nat_nonempty v H). destruct (print_nat v); [congruence | cbn; lia]. Qed.
 
 Lemma rule_type_nonneg rl : rule_ok rl = true -> 1 <= rule_type rl.
-Proof. destruct rl; cbn; try destruct choice; intros H; try (unfold Sm_Basic, Sm_Choice, Sm_Disjunctive, Sm_Cardinality, Sm_Weight, Sm_Optimize, Sm_ClaspIncrement, Sm_ClaspAssignExt, Sm_ClaspReleaseExt; lia). bsplit. lia. Qed.
+Proof.
+  destruct rl as [tw h b|ch tw nw hs b|tw h b bnd|tw h bnd b wts|tw bnd b wts|tw z|tw a v|tw a|t]; cbn [rule_type rule_ok]; intros H;
+    try destruct ch; try (vm_compute; discriminate).
+  bsplit. lia.
+Qed.
 
 Lemma delim_fields rl x : rule_ok rl = true -> delim x -> delim (rule_fields rl ++ x).
 Proof.
@@ -353,7 +360,7 @@ Proof.
       - cbn [flat_map app]. unfold r_zero. rewrite <- app_assoc. apply delim_sep.
         cbn [isnil negb] in Hw. rewrite orb_true_r in Hw. exact Hw.
       - cbn [flat_map]. unfold r_rule at 1. rewrite <- !app_assoc. apply delim_sep.
-        cbn [rules_ok] in H1. bsplit. assumption. }
+        match goal with Hx : rules_ok true (r2 :: l2) = true |- _ => cbn [rules_ok front_ok] in Hx end. bsplit. assumption. }
     pose proof (rule_type_nonneg rl ltac:(assumption)) as Hty.
     assert (Hp : spec2 (rule_type rl <=? sm_rt_max)
                (m_pos sm_rt_max (amk (rule_tw rl ++ print_nat (rule_type rl) ++ rule_fields rl ++ flat_map r_rule l ++ r_zero w ++ r) ln))
@@ -391,16 +398,17 @@ Lemma nl_strip w x ln : nl_ok w = true -> nonws_hd x ->
   exists w' ln', ws_ok w' = true /\ a_get (amk (w ++ x) ln) = (10, amk (w' ++ x) ln').
 Proof.
   unfold nl_ok. intros H Hx. bsplit. destruct w as [|c w0]; [discriminate|]. cbn in H. bsplit.
-  unfold is_nl in H0. apply orb_prop in H0. destruct H0 as [E|E]; apply Z.eqb_eq in E; subst c.
+  match goal with Hx : is_nl c = true |- _ => unfold is_nl in Hx; apply orb_prop in Hx; destruct Hx as [E|E]; apply Z.eqb_eq in E; subst c end.
   - exists w0, (ln + 1). split; [assumption|]. reflexivity.
   - unfold a_get. cbn [rest aline app]. change (13 =? 13) with true. cbv iota. rewrite match10.
     destruct w0 as [|d w1].
     + cbn [app]. destruct x as [|e x]; cbn [hd tl].
       * exists [], (ln + 1). split; reflexivity.
       * destruct (Z.eqb_spec e 10) as [->|_]; [cbn in Hx; discriminate|]. exists [], (ln + 1). split; reflexivity.
-    + cbn [app hd tl]. cbn in H1. bsplit. destruct (Z.eqb_spec d 10) as [->|_].
-      * exists w1, (ln + 1). split; [assumption | reflexivity].
-      * exists (d :: w1), (ln + 1). split; [cbn; rewrite H0, H1; reflexivity | reflexivity].
+    + cbn [app hd tl]. match goal with Hx : forallb is_ws (d :: w1) = true |- _ => rename Hx into Hdw end.
+      destruct (Z.eqb_spec d 10) as [->|_].
+      * exists w1, (ln + 1). split; [cbn in Hdw; bsplit; assumption | reflexivity].
+      * exists (d :: w1), (ln + 1). split; [exact Hdw | reflexivity].
 Qed.
 
 Lemma read_name_spec : forall n fuel w x ln, (length n < fuel)%nat -> name_ok n = true -> nl_ok w = true -> nonws_hd x ->
@@ -409,10 +417,11 @@ Proof.
   induction n as [|c n IH]; intros fuel w x ln Hfu Hn Hw Hx; (destruct fuel as [|fu]; [cbn in Hfu; lia|]).
   - cbn [app read_name]. destruct (nl_strip w x ln Hw Hx) as (w' & ln' & Hw' & E). rewrite E.
     change (10 =? 10) with true. cbv iota. eauto.
-  - cbn in Hn. bsplit. apply negb_true_iff in H. apply orb_false_elim in H. destruct H as [H H13].
-    apply orb_false_elim in H. destruct H as [H0 H10].
+  - cbn [name_ok forallb] in Hn. apply andb_prop in Hn. destruct Hn as [Hc Hn].
+    apply negb_true_iff in Hc. apply orb_false_elim in Hc. destruct Hc as [Hc H13].
+    apply orb_false_elim in Hc. destruct Hc as [Hc0 H10].
     cbn [app read_name]. destruct (a_get_plain c (n ++ w ++ x) ln ltac:(lia)) as [ln1 E]. rewrite E.
-    rewrite H10, H0. destruct (IH fu w x ln1 ltac:(cbn in Hfu; lia) ltac:(assumption) Hw Hx) as (w' & ln' & Hw' & E2).
+    rewrite H10, Hc0. destruct (IH fu w x ln1 ltac:(cbn in Hfu; lia) ltac:(assumption) Hw Hx) as (w' & ln' & Hw' & E2).
     rewrite E2. cbn [bind]. eauto.
 Qed.
 
@@ -471,9 +480,10 @@ Proof.
     + destruct Hp as [ln1 E]. rewrite E.
       rewrite wrap32s_id by (unfold INT_MAX; unfold atomMax in Emax; lia).
       destruct (Z.eqb_spec (snd (y_atom y)) 0); [lia|].
-      destruct (a_get_plain (y_sep y) (y_name y ++ (flat_map r_sym l ++ r_zero w) ++ r) ln1 ltac:(lia)) as [ln2 E2].
+      rewrite <- !app_assoc.
+      destruct (a_get_plain (y_sep y) (y_name y ++ flat_map r_sym l ++ r_zero w ++ r) ln1 ltac:(lia)) as [ln2 E2].
       rewrite E2. cbn [snd].
-      rewrite <- app_assoc. rewrite (app_assoc (flat_map r_sym l)), syms_text, <- app_assoc.
+      rewrite (app_assoc (flat_map r_sym l)), syms_text, <- app_assoc.
       destruct (read_name_spec (y_name y) (fuel_of (amk (y_name y ++ sfw l w ++ sbody l w ++ r) ln2)) (sfw l w) (sbody l w ++ r) ln2)
         as (w' & ln3 & Hw' & E3); try assumption.
       { unfold fuel_of. cbn [rest]. rewrite app_length. lia. }
@@ -508,9 +518,9 @@ Lemma atoms_ok_in a l w : atoms_ok a l = true -> end_ok (a && isnil l) w = true 
 Proof.
   revert a. induction l as [|x l IH]; intros a H Hw.
   - cbn [nums_in_ok nfw]. cbn [isnil] in Hw. rewrite andb_true_r in Hw. split; [reflexivity|]. destruct a; exact Hw.
-  - cbn [atoms_ok] in H. bsplit. cbn [nums_in_ok nfw]. cbn [isnil] in Hw. rewrite andb_false_r in Hw.
-    destruct (IH false ltac:(assumption) ltac:(exact Hw)) as [Hi Hf]. cbn iota in Hf.
-    rewrite H2, Hi, Hf. split; [reflexivity | assumption].
+  - cbn [atoms_ok] in H. apply andb_prop in H. destruct H as [H Hl]. apply andb_prop in H. destruct H as [Hfa Hva].
+    cbn [nums_in_ok nfw]. cbn [isnil] in Hw. rewrite andb_false_r in Hw.
+    destruct (IH false Hl Hw) as [Hi Hf]. cbn iota in Hf. rewrite Hva, Hi, Hf. split; [reflexivity | exact Hfa].
 Qed.
 
 Lemma nbody_nonws l w r : nums_in_ok l w = true -> nonws_hd (nbody l w ++ r).
@@ -518,7 +528,6 @@ Proof.
   destruct l as [|a l]; cbn [nbody app]; [reflexivity|]. cbn [nums_in_ok]. intros H. bsplit.
   rewrite <- app_assoc. apply hd_nonws_digits. lia.
 Qed.
-Lemma nonws_delim x : nonws_hd x -> forall c, True. Proof. auto. Qed.
 
 Lemma tlist_spec (rd : nat -> ast -> cres ast) (max : Z) (mk : Z -> call) :
   max = atomMax ->
@@ -625,6 +634,12 @@ Proof.
   - destruct H1 as (cs' & ln & E). rewrite E. cbn [cbind]. eexists _, ln. reflexivity.
 Qed.
 
+Lemma cspec_eq b b' m cs cs' r : b = b' -> cs = cs' -> cspec b m cs r -> cspec b' m cs' r.
+Proof. intros -> ->. exact id. Qed.
+
+Lemma cspec_ret cs r ln : cspec true (cs, Ok (amk r ln)) cs r.
+Proof. exists ln. reflexivity. Qed.
+
 Lemma models_spec n r ln : ws_ok (fst n) = true -> 0 <= snd n -> delim r ->
   cspec (count_in (snd n))
     (match m_pos sm_models_max (amk (r_num n ++ r) ln) with Ok (_, s3) => ([], Ok s3) | Err l => ([], Err l) | Fuel => ([], Fuel) end) [] r.
@@ -644,7 +659,7 @@ Proof.
     destruct (skip_kw w sm_kw_ext (r_nums l ++ r_zero z ++ r_num n ++ r) ln ltac:(assumption) ltac:(reflexivity)) as [ln1 E].
     rewrite E. destruct (atoms_ok_in false l z ltac:(assumption) ltac:(cbn [andb]; assumption)) as [Hin Hf]. cbn iota in Hf.
     rewrite <- (app_nil_r (map _ l)).
-    apply cspec_bind.
+    eapply cspec_bind.
     + rewrite app_assoc, nums_text, <- app_assoc. apply ext_atoms_spec; [now apply len_nums_lt | now apply sep_ok_ws | assumption | now apply delim_num].
     + intros _ ln2. now apply models_spec.
   - cbn [app andb]. unfold a_skipws. cbn [rest aline]. unfold r_num. rewrite <- app_assoc.
@@ -691,7 +706,6 @@ Lemma step_spec (o : opts) lead s r ln : step_ok lead s = true -> delim r ->
 Proof.
   unfold step_ok. intros H Hr. bsplit. unfold do_parse, r_step, step_in, d_step. rewrite <- !app_assoc.
   destruct (syms_front _ _ ltac:(eassumption) ltac:(eassumption)) as [Hsin Hsf].
-  cbn [cbind]. cbn [app].
   assert (HB : forall k x, is_digit (hd 0 (k ++ x)) = false -> forall w, ws_ok w = true -> delim (w ++ k ++ x)).
   { intros k x Hk w Hw. destruct (k ++ x) as [|c y]; [rewrite app_nil_r; destruct w as [|c w]; [exact I|cbn in Hw; bsplit; cbn; now apply ws_not_digit]|]. now apply delim_kw. }
   assert (Hd4 : delim (r_ext (s_ext s) ++ r_num (s_models s) ++ r)).
@@ -702,34 +716,38 @@ Proof.
   set (R2 := s_bpw s ++ sm_kw_bplus ++ r_nums (s_bplus s) ++ r_zero (s_bpend s) ++ R3) in *.
   assert (Hd3 : delim R3) by (apply HB; [reflexivity | assumption]).
   assert (Hd2 : delim R2) by (apply HB; [reflexivity | assumption]).
-  eapply (cspec_bind _ _ _ _ _ _ _ r). 
-  { apply (read_rules_spec o (s_rules s) lead _ 0 (s_rend s) (flat_map r_sym (s_syms s) ++ r_zero (s_send s) ++ R2) ln).
-    - unfold fuel_of. cbn [rest]. rewrite app_length.
-      pose proof (len_flat r_rule (s_rules s)) as Hl. 
-      assert (length (s_rules s) <= length (flat_map r_rule (s_rules s)))%nat; [|lia].
-      apply Hl. intros a Ha. unfold r_rule. rewrite !app_length.
-      pose proof (print_nat_len (rule_type a) ltac:(pose proof (rule_type_nonneg a (rules_ok_all _ _ ltac:(eassumption) a Ha)); lia)). lia.
-    - assumption.
-    - assumption.
-    - rewrite app_assoc, syms_text, <- app_assoc. now apply delim_sep. }
-  intros _ ln1.
-  eapply (cspec_bind _ _ _ _ _ _ _ r).
-  { rewrite app_assoc, syms_text, <- app_assoc. apply read_symbols_spec; try assumption; [|now apply sep_ok_ws].
-    unfold fuel_of. cbn [rest]. rewrite !app_length.
-    assert (length (s_syms s) <= length (sfw (s_syms s) (s_send s)) + length (sbody (s_syms s) (s_send s)))%nat; [|lia].
-    rewrite <- app_length, <- syms_text, app_length.
-    pose proof (len_flat r_sym (s_syms s)) as Hl.
-    assert (length (s_syms s) <= length (flat_map r_sym (s_syms s)))%nat; [|lia].
-    apply Hl. intros a _. unfold r_sym. rewrite app_length. cbn [length]. lia. }
-  intros _ ln2.
-  eapply (cspec_bind _ _ _ _ _ _ _ r).
-  { unfold R2. apply read_compute_spec; try assumption. reflexivity. }
-  intros _ ln3.
-  eapply (cspec_bind _ _ _ _ _ _ _ r).
-  { unfold R3. apply read_compute_spec; try assumption. reflexivity. }
-  intros _ ln4.
-  rewrite <- (andb_true_r (ext_in (s_ext s) && count_in (snd (s_models s)))).
-  eapply (cspec_bind _ _ _ _ _ _ _ r).
-  { apply read_extra_spec; assumption. }
-  intros _ ln5. exists ln5. reflexivity.
+  eapply cspec_eq; cycle 2.
+  - eapply cspec_bind. { apply cspec_ret. }
+    intros _ ln0.
+    eapply cspec_bind.
+    { apply (read_rules_spec o (s_rules s) lead _ 0 (s_rend s) (flat_map r_sym (s_syms s) ++ r_zero (s_send s) ++ R2) ln0).
+      - unfold fuel_of. cbn [rest]. rewrite app_length.
+        pose proof (len_flat r_rule (s_rules s)) as Hl.
+        assert (length (s_rules s) <= length (flat_map r_rule (s_rules s)))%nat; [|lia].
+        apply Hl. intros a Ha. unfold r_rule. rewrite !app_length.
+        pose proof (print_nat_len (rule_type a) ltac:(pose proof (rule_type_nonneg a (rules_ok_all _ _ ltac:(eassumption) a Ha)); lia)). lia.
+      - assumption.
+      - assumption.
+      - rewrite app_assoc, syms_text, <- app_assoc. now apply delim_sep. }
+    intros _ ln1.
+    eapply cspec_bind.
+    { rewrite app_assoc, syms_text, <- app_assoc. apply read_symbols_spec; try assumption; [|now apply sep_ok_ws].
+      unfold fuel_of. cbn [rest]. rewrite !app_length.
+      assert (length (s_syms s) <= length (sfw (s_syms s) (s_send s)) + length (sbody (s_syms s) (s_send s)))%nat; [|lia].
+      rewrite <- app_length, <- syms_text, app_length.
+      pose proof (len_flat r_sym (s_syms s)) as Hl.
+      assert (length (s_syms s) <= length (flat_map r_sym (s_syms s)))%nat; [|lia].
+      apply Hl. intros a _. unfold r_sym. rewrite app_length. cbn [length]. lia. }
+    intros _ ln2.
+    eapply cspec_bind.
+    { unfold R2. apply read_compute_spec; try assumption. reflexivity. }
+    intros _ ln3.
+    eapply cspec_bind.
+    { unfold R3. apply read_compute_spec; try assumption. reflexivity. }
+    intros _ ln4.
+    eapply cspec_bind.
+    { apply read_extra_spec; assumption. }
+    intros _ ln5. apply cspec_ret.
+  - cbn [andb]. btaut.
+  - reflexivity.
 Qed.
